@@ -52,9 +52,9 @@ type testTx struct {
 	msgs []sdk.Msg
 }
 
-func (t testTx) GetMsgs() []sdk.Msg                    { return t.msgs }
-func (t testTx) GetMsgsV2() ([]proto.Message, error)   { return nil, nil }
-func (t testTx) GetSigners() ([][]byte, error)         { return [][]byte{t.pub.Address()}, nil }
+func (t testTx) GetMsgs() []sdk.Msg                  { return t.msgs }
+func (t testTx) GetMsgsV2() ([]proto.Message, error) { return nil, nil }
+func (t testTx) GetSigners() ([][]byte, error)       { return [][]byte{t.pub.Address()}, nil }
 func (t testTx) GetPubKeys() ([]cryptotypes.PubKey, error) {
 	return []cryptotypes.PubKey{t.pub}, nil
 }
